@@ -32,7 +32,10 @@ def kernelFloat2 : String → Option (Float → Float → Float)
   | "minimum" | "fmin" => some fun a b => if a ≤ b then a else b
   | "hypot" => some fun a b => Float.sqrt (a * a + b * b)
   | "floor_divide" => some fun a b => Float.floor (a / b)
-  | "remainder" => some fun a b => a - b * Float.floor (a / b)
+  | "remainder" => some fun a b =>
+    -- NumPy's remainder takes the sign of the divisor, also for a zero result
+    let r := a - b * Float.floor (a / b)
+    if r == 0 then (if b < 0 then -0.0 else 0.0) else r
   | "arctan2" => some Float.atan2
   | "copysign" => some fun a b => if b < 0 then -a.abs else a.abs
   | "greater" => some fun a b => if a > b then 1 else 0
